@@ -664,4 +664,81 @@ theorem emitted_run (cap : Nat) (P : Event → Prop) : ∀ (as : List QAction) (
     exact emitted_run cap P t _ (fun e he => ha e (List.mem_cons_of_mem _ he))
       (emitted_step cap q a P (fun e he => ha e (he ▸ List.mem_cons_self)) h)
 
+/-! ### fail-over and watch interleavings -/
+
+theorem mem_live_run_nodeUps (r : Nat) : ∀ (l : List Nat) (st : St),
+    r ∈ (run st (l.map Event.nodeUp)).live ↔ r ∈ st.live ∨ r ∈ l
+  | [], st => by simp [run]
+  | id :: t, st => by
+    have ih := mem_live_run_nodeUps r t (step st (.nodeUp id))
+    have hs := mem_live_step st (.nodeUp id) r
+    simp only [List.map_cons, run, List.foldl_cons] at ih ⊢
+    rw [ih, hs]
+    simp only [List.mem_cons]
+    constructor
+    · rintro ((h | h) | h)
+      · exact Or.inl h
+      · exact Or.inr (Or.inl h)
+      · exact Or.inr (Or.inr h)
+    · rintro (h | h | h)
+      · exact Or.inl (Or.inl h)
+      · exact Or.inl (Or.inr h)
+      · exact Or.inr h
+
+/-- events that are not node events leave the live set alone -/
+theorem mem_live_run_nonnode (r : Nat) : ∀ (es : List Event) (st : St),
+    (∀ e ∈ es, ∀ id, e.key ≠ .node id) → (r ∈ (run st es).live ↔ r ∈ st.live)
+  | [], _, _ => by simp [run]
+  | e :: t, st, h => by
+    have ih := mem_live_run_nonnode r t (step st e) (fun e' he' => h e' (List.mem_cons_of_mem _ he'))
+    have hs := mem_live_step st e r
+    simp only [run, List.foldl_cons] at ih ⊢
+    rw [ih, hs]
+    have he := h e List.mem_cons_self
+    cases e with
+    | nodeUp id => exact absurd rfl (he id)
+    | nodeDown id => exact absurd rfl (he id)
+    | assignChanged db a => exact Iff.rfl
+    | dbCfg db => exact Iff.rfl
+    | dropDb db => exact Iff.rfl
+
+/-- whether node `r` is alive depends only on the stream of `r`'s own key -/
+theorem aliveAfter_streamOf (r : Nat) : ∀ (es : List Event) (b : Bool),
+    aliveAfter r es b = aliveAfter r (streamOf (.node r) es) b
+  | [], _ => rfl
+  | e :: t, b => by
+    have ih := aliveAfter_streamOf r t
+    cases e with
+    | nodeUp id =>
+      by_cases h : id = r
+      · subst h
+        simp only [streamOf, List.filter_cons, Event.key, decide_true, ite_true, aliveAfter]
+        exact ih _
+      · have hk : ¬ (Key.node id = Key.node r) := fun e => h (Key.node.inj e)
+        simp only [streamOf, List.filter_cons, Event.key, hk, decide_false, aliveAfter, h, ite_false]
+        exact ih _
+    | nodeDown id =>
+      by_cases h : id = r
+      · subst h
+        simp only [streamOf, List.filter_cons, Event.key, decide_true, ite_true, aliveAfter]
+        exact ih _
+      · have hk : ¬ (Key.node id = Key.node r) := fun e => h (Key.node.inj e)
+        simp only [streamOf, List.filter_cons, Event.key, hk, decide_false, aliveAfter, h, ite_false]
+        exact ih _
+    | assignChanged db a =>
+      simp only [streamOf, List.filter_cons, Event.key, aliveAfter]
+      have hk : ¬ (Key.asg db = Key.node r) := fun e => Key.noConfusion e
+      simp only [hk, decide_false]
+      exact ih _
+    | dbCfg db =>
+      simp only [streamOf, List.filter_cons, Event.key, aliveAfter]
+      have hk : ¬ (Key.cfg db = Key.node r) := fun e => Key.noConfusion e
+      simp only [hk, decide_false]
+      exact ih _
+    | dropDb db =>
+      simp only [streamOf, List.filter_cons, Event.key, aliveAfter]
+      have hk : ¬ (Key.cfg db = Key.node r) := fun e => Key.noConfusion e
+      simp only [hk, decide_false]
+      exact ih _
+
 end LinVerif.Lemmas.C18
